@@ -744,11 +744,81 @@ def class_view(repo: Repo, fi: FuncInfo, concrete, allow=None, max_depth: int = 
         # of the pipeline as well: `self._message(self._find(evaluable))`, `raise AssertionError(self._message(...))`,
         # `self._detector(mapping).judge(a, b)`.  It is given a name in front of the statement (everything evaluated before it
         # is named too, in evaluation order, so that nothing moves across a state change) and then inlined like `x = helper()`.
+        # ---- `try: ...; return e  except X: raise ...` wrappers: the value leaves the function only through the `return` that
+        # ends the try body, so the helper is inlined with `result = e` inside the try and `return result` after it
+        @staticmethod
+        def _try_return_shape(callee) -> bool:  # noqa: ANN001
+            body = strip_docstring(callee.node.body)
+            if not body or not isinstance(body[-1], ast.Try):
+                return False
+            t = body[-1]
+            if t.orelse or not t.body or not isinstance(t.body[-1], ast.Return) or t.body[-1].value is None:
+                return False
+            others = [x for st in [*body[:-1], *t.body[:-1], *t.finalbody, *[y for h in t.handlers for y in h.body]] for x in ast.walk(st) if isinstance(x, ast.Return)]
+            if others:
+                return False
+            return all(h.body and isinstance(h.body[-1], ast.Raise) for h in t.handlers)
+
+        @staticmethod
+        def _try_else_shape(callee) -> bool:  # noqa: ANN001
+            """`<pre>; try: <no return> except X: ...; return a  <post>; return b` - what follows the try runs only if nothing
+            was caught: it becomes the `else` block, and every exit assigns the result"""
+            body = strip_docstring(callee.node.body)
+            tries = [i for i, st in enumerate(body) if isinstance(st, ast.Try)]
+            if len(tries) != 1 or not isinstance(body[-1], ast.Return) or body[-1].value is None:
+                return False
+            t = body[tries[0]]
+            if t.orelse or t.finalbody or not t.handlers or tries[0] == len(body) - 1:
+                return False
+            if any(isinstance(x, ast.Return) for st in [*body[:tries[0]], *t.body, *body[tries[0] + 1:-1]] for x in ast.walk(st)):
+                return False
+            for h in t.handlers:
+                if not h.body or not isinstance(h.body[-1], (ast.Return, ast.Raise)) or (isinstance(h.body[-1], ast.Return) and h.body[-1].value is None):
+                    return False
+                if any(isinstance(x, ast.Return) for st in h.body[:-1] for x in ast.walk(st)):
+                    return False
+            return True
+
+        def _eligible(self, caller, callee, form):  # noqa: ANN001
+            if Inliner._eligible(self, caller, callee, form):
+                return True
+            if form in ("expr", "assign") and not isinstance(callee.node, ast.Lambda) and (self._try_return_shape(callee) or self._try_else_shape(callee)):
+                return Inliner._eligible(self, caller, callee, "return")
+            return False
+
         def _expand(self, ctx, call, callee, taken, origin, stack):  # noqa: ANN001, F811
             got = self._expand_super(ctx, call, callee, taken, origin, stack)
             if got is None:
                 return None
             prefix, body = got
+            if body and isinstance(body[-1], ast.Try) and body[-1].body and isinstance(body[-1].body[-1], ast.Return) and self._try_return_shape(callee):
+                t = body[-1]
+                ret = t.body[-1]
+                new = Inliner._fresh("result", callee.name, taken)
+                taken.add(new)
+                st = ast.copy_location(ast.Assign(targets=[ast.copy_location(ast.Name(id=new, ctx=ast.Store()), ret)], value=ret.value), ret)
+                if hasattr(ret, "_src"):
+                    st._src = ret._src  # type: ignore[attr-defined]
+                t.body[-1] = st
+                body.append(ast.copy_location(ast.Return(value=ast.copy_location(ast.Name(id=new, ctx=ast.Load()), ret)), ret))
+            elif body and isinstance(body[-1], ast.Return) and self._try_else_shape(callee):
+                ti = next(i for i, st in enumerate(body) if isinstance(st, ast.Try))
+                t = body[ti]
+                new = Inliner._fresh("result", callee.name, taken)
+                taken.add(new)
+
+                def to_assign(ret):  # noqa: ANN001
+                    st = ast.copy_location(ast.Assign(targets=[ast.copy_location(ast.Name(id=new, ctx=ast.Store()), ret)], value=ret.value), ret)
+                    if hasattr(ret, "_src"):
+                        st._src = ret._src  # type: ignore[attr-defined]
+                    return st
+
+                last = body[-1]
+                t.orelse = body[ti + 1:-1] + [to_assign(last)]
+                for h in t.handlers:
+                    if isinstance(h.body[-1], ast.Return):
+                        h.body[-1] = to_assign(h.body[-1])
+                body = body[:ti + 1] + [ast.copy_location(ast.Return(value=ast.copy_location(ast.Name(id=new, ctx=ast.Load()), last)), last)]
             if prefix:
                 prefix = self._block(ctx, prefix, taken, origin, stack)  # parameter bindings `p = helper(...)`
             return prefix, body
